@@ -276,7 +276,7 @@ func (e *Engine) unknownCall(s *State, name string, sig *types.Signature, recv V
 		s.trace = append(append([]TraceEv(nil), s.trace...), ev)
 	}
 	// an assumed contract on the interface method (or external function) constrains the otherwise free results
-	if c := e.ifaceContracts[name]; c != nil && s.spec == 0 {
+	if c := e.ifaceContract(name); c != nil && s.spec == 0 {
 		site := e.site(e.curInstr)
 		bind := func(spec *ssa.Function) []Val {
 			var pa []Val
@@ -461,4 +461,20 @@ func neededOlds(fn *ssa.Function, posts []string) map[string]bool {
 		}
 	}
 	return need
+}
+
+// ifaceContract picks the assumed contract for a callee that applies to the target being verified: an assumption
+// written in a package's contract file speaks for the functions of that package only (another package may keep
+// the same callee under a different - or no - assumption).
+func (e *Engine) ifaceContract(name string) *Contract {
+	cs := e.ifaceAll[name]
+	if len(cs) == 0 || e.curT == nil {
+		return nil
+	}
+	for _, c := range cs {
+		if c.SpecPkg != nil && c.SpecPkg == e.curT.Fn.Pkg {
+			return c
+		}
+	}
+	return nil
 }
